@@ -216,7 +216,7 @@ func TestC17(t *testing.T) {
 			run(c)
 		}
 	}
-	for i, n := 0, vt.Pick(500, 10000); i < n; i++ {
+	for i, n := 0, vt.Pick(300, 10000); i < n; i++ {
 		run(c17RandomBudget(rnd))
 	}
 	for i, n := 0, vt.Pick(40, 600); i < n; i++ {
